@@ -208,6 +208,17 @@ def check_abbrevs(d, f, w, path, tag, out, bad):
     for k, v in got.items():
         if len(set(v)) != len(v):
             bad.append(("abbreviation-listed-twice", dict(file=tag, table=k)))
+    # the abbreviation table of a UNIT (`unit abbrev`) is the one its header names, with the same entries
+    r3 = d.run("raw unit (|U| [U offset, U abbrev offset, U abbrev entry code])", inp=inp, fuel=0, max=100000, timeout=600)
+    if r3["st"] != "done":
+        bad.append(("abbrev-unit-query-failed", dict(file=tag, st=r3["st"], msg=r3.get("msg"), which="unit abbrev"))); return
+    by_unit = {u.offset: u for u in f.units}
+    for s in r3["res"]:
+        vals = [int(v["v"]) for v in s[-1]["v"]]
+        u = by_unit.get(vals[0])
+        out["unit_abbrevs"] = out.get("unit_abbrevs", 0) + 1
+        if u is None or vals[1] != u.abbrev_offset or sorted(vals[2:]) != sorted(want.get(u.abbrev_offset, [])):
+            bad.append(("unit-abbrev-differs", dict(file=tag, unit=vals[0], got_table=vals[1], want_table=getattr(u, "abbrev_offset", None)))); return
 
 
 def check_laws_file(d, path, tag, out, bad):
